@@ -90,7 +90,9 @@ def parse_lp_packet(wire: BinaryStr, with_tl: bool = True) -> (int | None, Binar
     """
     ret = parse_lp_packet_v2(wire, with_tl)
     if ret.nack is not None:
-        return ret.nack.nack_reason, ret.fragment
+        # NackReason is optional in NDNLPv2; an absent reason means None(0), it is still a Nack
+        reason = ret.nack.nack_reason
+        return (reason if reason is not None else NackReason.NONE), ret.fragment
     else:
         return None, ret.fragment
 
